@@ -30,6 +30,7 @@ RULE = ("seeded sampling over method x M x operator kind x batch pattern x n x n
         "(group 'symeig'), and over shape class x k x mode x method x operator kind x batch (group 'svd'); non-trivial = the call returned, "
         "every clause was evaluated, n>=2 (svd: min(m,n)>=2) and, for davidson, the subspace was expanded at least once "
         "(>=2 Rayleigh-Ritz steps counted at the internal slicing function)")
+RULE += ('; 40% of the square svd operators are Hermitian-flagged with an indefinite spectrum')
 MIN_NONTRIVIAL = {"quick": 4000, "thorough": 80000}
 ASSUMPTIONS = [
     "M = Q diag(mu) Q^H with mu in [1, kappa_M], kappa_M <= 10; generalised eigenvalues designed in [-20, 20]",
